@@ -675,6 +675,7 @@ def c12_bytes(tier, seed):
         items.append({"in": {"target": "registry", "level": "-", "n": n // 2}})
     for k in range(4):
         items.append({"in": {"target": "config-files", "level": "-", "n": n // 4}})
+    items.append({"in": {"target": "odd-roots", "level": "-", "n": 16}})
     return items
 
 
